@@ -1,5 +1,6 @@
 import io
 import logging
+from copy import deepcopy
 from typing import BinaryIO, Iterable, Optional, Union
 
 from . import errors
@@ -132,7 +133,6 @@ class LasReader:
 
         """
         points = self.read_points(-1)
-        las_data = LasData(header=self.header, points=points)
 
         shall_read_evlr = (
             self.header.version.minor >= 4
@@ -204,7 +204,9 @@ class LasReader:
         elif self.header.version.minor >= 4 and self.evlrs is None:
             # nothing to load: same (empty) list as when EVLRs are read at opening
             self.evlrs = VLRList()
-        return las_data
+        # the LasData owns its header: what is done to it must not change
+        # what this reader, or another LasData it returns, works with
+        return LasData(header=deepcopy(self.header), points=points)
 
     def seek(self, pos: int, whence: int = io.SEEK_SET) -> int:
         """Seeks to the start of the point at the given pos
